@@ -41,7 +41,11 @@ public:
   bool in_user_print = false;
   std::string print_text;
   std::vector<std::string> punches;   // in call order, D.. or S..
+  bool in_warning = false;
+  // warnings ("Zero divide in BASIC line ...") are echoed into the output stream: not part of the PRINT text
+  virtual void warning_msg(const char* s) { in_warning = true; IPhreeqc::warning_msg(s); in_warning = false; }
   virtual void output_msg(const char* s) {
+    if (in_warning) { IPhreeqc::output_msg(s); return; }
     std::string t(s ? s : "");
     if (t.find("User print") != std::string::npos && t.find("-----") != std::string::npos) { in_user_print = true; }
     else if (in_user_print && t.compare(0, 10, "----------") == 0) in_user_print = false;
@@ -102,6 +106,7 @@ static std::string run_case(BasicIPhreeqc* p, const std::string& host, const std
       double v = 0;
       try { if (TestIPhreeqc::rate_once(p, v) != 0) { items.push_back("!nokinetics"); nerr = -1; } else items.push_back("D" + hx::hexd(v)); }
       catch (const PhreeqcStop&) { nerr = 1; }
+      catch (const IPhreeqcStop&) { nerr = 1; }     // error_msg(..., STOP): what RunString itself catches
       catch (...) { exc = true; }
     }
   } else if (host == "calc") {
